@@ -226,9 +226,11 @@ class TimeIt:
 
   def __enter__(self):
     parent = thread_local.thread_local_get('__timing_context__', None)
+    # NOTE: the parent is recorded at every entry (a `TimeIt` object could be
+    # entered again in another scope), as `__exit__` restores it.
+    self._parent = parent
     if parent is not None:
       parent.add(self)
-      self._parent = parent
     thread_local.thread_local_set('__timing_context__', self)
     self.start()
     return self
